@@ -39,6 +39,7 @@ Section Main.
   Variable leb eqb : V -> V -> bool.
   Variable ofZ : Z -> V.
   Variable interp : list V -> list V -> V -> option V.
+  Variable mk : V -> tree V.
   Hypothesis OK : order_ok leb eqb.
   Notation tree := (tree V).
 
@@ -63,14 +64,14 @@ Section Main.
     Definition stepv (acc : option tree) (p : path) : option tree :=
       match acc with
       | None => None
-      | Some cur => match val p with Some y => set p (TF y) cur | None => None end
+      | Some cur => match val p with Some y => set p (mk y) cur | None => None end
       end.
 
     Lemma fold_none paths : fold_left stepv paths None = None.
     Proof. induction paths; simpl; auto. Qed.
 
     Definition inv (done : list path) (cur : tree) : Prop :=
-      (forall p, In p done -> exists y, val p = Some y /\ get p cur = Some (TF y)) /\
+      (forall p, In p done -> exists y, val p = Some y /\ get p cur = Some (mk y)) /\
       (forall p', (forall p, In p done -> comparable p p' = false) -> get p' cur = get p' template).
 
     Lemma inv_nil : inv [] template.
@@ -78,7 +79,7 @@ Section Main.
 
     Lemma inv_step done cur p y cur' :
       (forall p0, In p0 done -> In p0 (fpaths template)) -> In p (fpaths template) ->
-      inv done cur -> val p = Some y -> set p (TF y) cur = Some cur' -> inv (done ++ [p]) cur'.
+      inv done cur -> val p = Some y -> set p (mk y) cur = Some cur' -> inv (done ++ [p]) cur'.
     Proof.
       intros Sub Ip [I1 I2] Hv S. split.
       - intros p0 H0. destruct (path_eq_dec p0 p) as [->|N].
@@ -99,7 +100,7 @@ Section Main.
       induction todo as [|p todo IH]; intros done cur r Sub I H; simpl in H.
       - inversion H. subst. rewrite app_nil_r. exact I.
       - destruct (val p) as [y|] eqn:Hv; [|rewrite fold_none in H; discriminate].
-        destruct (set p (TF y) cur) as [cur'|] eqn:S; [|rewrite fold_none in H; discriminate].
+        destruct (set p (mk y) cur) as [cur'|] eqn:S; [|rewrite fold_none in H; discriminate].
         replace (done ++ p :: todo) with ((done ++ [p]) ++ todo) by (rewrite <- app_assoc; reflexivity).
         apply (IH _ cur'); [rewrite <- app_assoc; exact Sub | | exact H].
         apply (inv_step done cur p y); auto.
@@ -122,7 +123,7 @@ Section Main.
           + destruct (fpaths_get _ _ W Ip) as [v0 G]. eexists; exact G.
           + intros p0 H0. apply (fpaths_incomparable ofZ template); auto. intro; subst; contradiction. }
       destruct G as [c G].
-      destruct (set_succeeds p (TF y) c cur (obj_paths_nonempty _ _ O Ip) G) as [cur' S]. rewrite S.
+      destruct (set_succeeds p (mk y) c cur (obj_paths_nonempty _ _ O Ip) G) as [cur' S]. rewrite S.
       apply (IH (done ++ [p]) cur').
       - rewrite <- app_assoc. exact Sub.
       - apply (inv_step done cur p y); auto.
@@ -134,17 +135,17 @@ Section Main.
     Proof.
       induction todo as [|p todo IH]; intros cur r H p0 I; [contradiction|]. simpl in H.
       destruct (val p) as [y|] eqn:Hv; [|rewrite fold_none in H; discriminate].
-      destruct (set p (TF y) cur) as [cur'|]; [|rewrite fold_none in H; discriminate].
+      destruct (set p (mk y) cur) as [cur'|]; [|rewrite fold_none in H; discriminate].
       destruct I as [<-|I]; [eexists; exact Hv | apply (IH _ _ H _ I)].
     Qed.
   End Fold.
 
   (* ---------- unfolding __getitem__ ---------- *)
-  Lemma step_is_stepv vm xs v : step eqb ofZ interp vm xs v = stepv (leaf_value eqb ofZ interp vm xs v).
+  Lemma step_is_stepv vm xs v : step eqb ofZ interp mk vm xs v = stepv (leaf_value eqb ofZ interp vm xs v).
   Proof. reflexivity. Qed.
 
   Lemma interp_at_new assign insts q qv r :
-    interp_at leb eqb ofZ interp assign insts q qv = ONew r ->
+    interp_at leb eqb ofZ interp mk assign insts q qv = ONew r ->
     exists v ks template rest,
       num_of ofZ qv = Some v /\ keys_of q insts = Some ks /\ insts = template :: rest /\
       dict_get eqb v (vm_build eqb ks insts) = None /\
@@ -226,7 +227,7 @@ Section Main.
   Lemma known_point assign insts q qv v ks i inst k :
     num_of ofZ qv = Some v -> keys_of q insts = Some ks -> distinct eqb ks ->
     nth_error insts i = Some inst -> abscissa ofZ q inst = Some k -> eqb k v = true ->
-    interp_at leb eqb ofZ interp assign insts q qv = OSame i.
+    interp_at leb eqb ofZ interp mk assign insts q qv = OSame i.
   Proof.
     intros Hv K D Ni A E. unfold interp_at. fold (keys_of q insts). rewrite Hv, K.
     assert (Nk : nth_error ks i = Some k).
@@ -238,7 +239,7 @@ Section Main.
   Qed.
 
   Lemma same_sound assign insts q qv i :
-    interp_at leb eqb ofZ interp assign insts q qv = OSame i ->
+    interp_at leb eqb ofZ interp mk assign insts q qv = OSame i ->
     forall ks, keys_of q insts = Some ks -> distinct eqb ks ->
     exists v inst k, num_of ofZ qv = Some v /\ nth_error insts i = Some inst /\
                      abscissa ofZ q inst = Some k /\ eqb k v = true.
@@ -289,12 +290,12 @@ Section Main.
 
   Theorem per_leaf_raw assign template rest q qv r :
     wf template = true -> is_obj template ->
-    interp_at leb eqb ofZ interp assign (template :: rest) q qv = ONew r ->
+    interp_at leb eqb ofZ interp mk assign (template :: rest) q qv = ONew r ->
     exists v ks, num_of ofZ qv = Some v /\ keys_of q (template :: rest) = Some ks /\
       forall p, In p (fpaths template) -> (assign = true -> p <> qkeys q) ->
         exists y, leaf_value eqb ofZ interp (vm_build eqb ks (template :: rest))
                              (sort_keys leb (map fst (vm_build eqb ks (template :: rest)))) v p = Some y
-                  /\ get p r = Some (TF y).
+                  /\ get p r = Some (mk y).
   Proof.
     intros W O H. destruct (interp_at_new _ _ _ _ _ H) as [v [ks [t0 [rest0 [Hv [K [E [Dg [r0 [Fo Fin]]]]]]]]]].
     inversion E. subst t0 rest0. exists v, ks. repeat split; auto.
@@ -309,11 +310,11 @@ Section Main.
 
   Theorem per_leaf assign template rest q qv r :
     wf template = true -> is_obj template ->
-    interp_at leb eqb ofZ interp assign (template :: rest) q qv = ONew r ->
+    interp_at leb eqb ofZ interp mk assign (template :: rest) q qv = ONew r ->
     forall ks, keys_of q (template :: rest) = Some ks -> distinct eqb ks ->
     exists v, num_of ofZ qv = Some v /\
       forall p, In p (fpaths template) -> (assign = true -> p <> qkeys q) ->
-        exists y ys, get p r = Some (TF y) /\ interp (sort_keys leb ks) ys v = Some y /\
+        exists y ys, get p r = Some (mk y) /\ interp (sort_keys leb ks) ys v = Some y /\
           Forall2 (fun x y' => exists inst, In inst (template :: rest) /\ abscissa ofZ q inst = Some x /\
                                             value_at p inst = Some y') (sort_keys leb ks) ys.
   Proof.
@@ -338,7 +339,7 @@ Section Main.
   (* what must not change: everything that is not below / above an interpolated leaf or the variable *)
   Theorem frame assign template rest q qv r :
     wf template = true -> is_obj template ->
-    interp_at leb eqb ofZ interp assign (template :: rest) q qv = ONew r ->
+    interp_at leb eqb ofZ interp mk assign (template :: rest) q qv = ONew r ->
     forall p', (forall p, In p (fpaths template) -> comparable p p' = false) ->
                (assign = true -> comparable (qkeys q) p' = false) ->
                get p' r = get p' template.
@@ -352,7 +353,7 @@ Section Main.
 
   (* the interpolation variable: with the final replacement kept it is exactly the requested value *)
   Theorem variable_assigned template rest q qv r :
-    interp_at leb eqb ofZ interp true (template :: rest) q qv = ONew r -> get (qkeys q) r = Some qv.
+    interp_at leb eqb ofZ interp mk true (template :: rest) q qv = ONew r -> get (qkeys q) r = Some qv.
   Proof.
     intro H. destruct (interp_at_new _ _ _ _ _ H) as [v [ks [t0 [rest0 [_ [_ [_ [_ [r0 [_ Fin]]]]]]]]]].
     apply (get_set_same _ _ _ _ Fin).
@@ -361,13 +362,13 @@ Section Main.
   (* with the final replacement discarded it is whatever the loop left there *)
   Theorem variable_discarded template rest q qv r :
     wf template = true -> is_obj template ->
-    interp_at leb eqb ofZ interp false (template :: rest) q qv = ONew r ->
+    interp_at leb eqb ofZ interp mk false (template :: rest) q qv = ONew r ->
     forall ks, keys_of q (template :: rest) = Some ks -> distinct eqb ks ->
     (* the template holds a float at the variable, found by the walk *)
     In (qkeys q) (fpaths template) ->
     exists v, num_of ofZ qv = Some v /\
       (* the routine reproduces the identity data x -> x at v *)
-      (interp (sort_keys leb ks) (sort_keys leb ks) v = Some v -> get (qkeys q) r = Some (TF v)).
+      (interp (sort_keys leb ks) (sort_keys leb ks) v = Some v -> get (qkeys q) r = Some (mk v)).
   Proof.
     intros W O H ks K D Iq. destruct (per_leaf _ _ _ _ _ _ W O H ks K D) as [v [Hv L]].
     exists v. split; [exact Hv|]. intro Id.
@@ -414,8 +415,8 @@ Section Main.
 
   Lemma order_free_same assign insts insts' q qv ks i :
     Permutation insts insts' -> keys_of q insts = Some ks -> distinct eqb ks ->
-    interp_at leb eqb ofZ interp assign insts q qv = OSame i ->
-    exists j, interp_at leb eqb ofZ interp assign insts' q qv = OSame j /\ nth_error insts' j = nth_error insts i.
+    interp_at leb eqb ofZ interp mk assign insts q qv = OSame i ->
+    exists j, interp_at leb eqb ofZ interp mk assign insts' q qv = OSame j /\ nth_error insts' j = nth_error insts i.
   Proof.
     intros P K D H. destruct (same_sound _ _ _ _ _ H ks K D) as [v [inst [k [Hv [Ni [A E]]]]]].
     destruct (keys_of_perm _ _ _ _ K P) as [ks' [K' Pk]].
@@ -426,8 +427,8 @@ Section Main.
 
   Lemma order_free_new assign insts insts' q qv ks F r :
     Permutation insts insts' -> keys_of q insts = Some ks -> distinct eqb ks -> same_shape F insts ->
-    interp_at leb eqb ofZ interp assign insts q qv = ONew r ->
-    exists r', interp_at leb eqb ofZ interp assign insts' q qv = ONew r' /\
+    interp_at leb eqb ofZ interp mk assign insts q qv = ONew r ->
+    exists r', interp_at leb eqb ofZ interp mk assign insts' q qv = ONew r' /\
                forall p, In p F -> get p r' = get p r.
   Proof.
     intros P K D Sh H.
@@ -462,7 +463,7 @@ Section Main.
     { intros p Ip. destruct (I1 p ltac:(rewrite Fp; exact Ip)) as [y [Hy G]].
       destruct (I1' p ltac:(rewrite Fp'; exact Ip)) as [y' [Hy' G']].
       rewrite <- Ev, Hy in Hy'. inversion Hy'. subst y'. rewrite G, G'. reflexivity. }
-    assert (U : interp_at leb eqb ofZ interp assign (template' :: rest') q qv =
+    assert (U : interp_at leb eqb ofZ interp mk assign (template' :: rest') q qv =
                 if assign then match set (qkeys q) qv r0' with Some r' => ONew r' | None => OErr end else ONew r0').
     { unfold interp_at. fold (keys_of q (template' :: rest')). rewrite Hv, K', Dg', step_is_stepv.
       fold val'. rewrite Fo'. reflexivity. }
@@ -488,7 +489,7 @@ Section Main.
 
   Theorem order_free assign insts insts' q qv ks F :
     Permutation insts insts' -> keys_of q insts = Some ks -> distinct eqb ks -> same_shape F insts ->
-    match interp_at leb eqb ofZ interp assign insts q qv, interp_at leb eqb ofZ interp assign insts' q qv with
+    match interp_at leb eqb ofZ interp mk assign insts q qv, interp_at leb eqb ofZ interp mk assign insts' q qv with
     | OSame i, OSame j => nth_error insts' j = nth_error insts i /\ nth_error insts i <> None
     | ONew r, ONew r' => forall p, In p F -> get p r' = get p r
     | OErr, OErr => True
@@ -499,12 +500,57 @@ Section Main.
     destruct (keys_of_perm _ _ _ _ K P) as [ks' [K' Pk]].
     pose proof (distinct_perm eqb _ _ D Pk) as D'.
     assert (Sh' : same_shape F insts') by (intros t It; apply Sh; apply (Permutation_in _ (Permutation_sym P)); exact It).
-    destruct (interp_at leb eqb ofZ interp assign insts q qv) as [i|r|] eqn:H.
+    destruct (interp_at leb eqb ofZ interp mk assign insts q qv) as [i|r|] eqn:H.
     - destruct (order_free_same _ _ _ _ _ _ _ P K D H) as [j [H' N]]. rewrite H'. split; [exact N|].
       destruct (same_sound _ _ _ _ _ H ks K D) as [v [inst [k [_ [Ni _]]]]]. rewrite Ni. discriminate.
     - destruct (order_free_new _ _ _ _ _ _ _ _ P K D Sh H) as [r' [H' L]]. rewrite H'. exact L.
-    - destruct (interp_at leb eqb ofZ interp assign insts' q qv) as [j|r'|] eqn:H'; [| |exact I].
+    - destruct (interp_at leb eqb ofZ interp mk assign insts' q qv) as [j|r'|] eqn:H'; [| |exact I].
       + destruct (order_free_same _ _ _ _ _ _ _ (Permutation_sym P) K' D' H') as [i [X _]]. rewrite X in H. discriminate.
       + destruct (order_free_new _ _ _ _ _ _ _ _ (Permutation_sym P) K' D' Sh' H') as [r [X _]]. rewrite X in H. discriminate.
+  Qed.
+  (* ---------- definedness: a query on a well-formed series never raises ---------- *)
+  Lemma all_some_length {A} (l : list (option A)) r : all_some l = Some r -> List.length r = List.length l.
+  Proof. intro H. apply all_some_spec in H. rewrite H, map_length. reflexivity. Qed.
+
+  Theorem defined assign insts q qv ks F v :
+    insts <> [] -> keys_of q insts = Some ks -> distinct eqb ks -> same_shape F insts ->
+    num_of ofZ qv = Some v ->
+    (* the routine accepts these abscissae (e.g. at least two of them differ) *)
+    (forall ys, List.length ys = List.length ks -> exists y, interp (sort_keys leb ks) ys v = Some y) ->
+    interp_at leb eqb ofZ interp mk assign insts q qv <> OErr.
+  Proof.
+    intros NE K D Sh Hv Tot. unfold interp_at. fold (keys_of q insts). rewrite Hv, K.
+    destruct (dict_get eqb v (vm_build eqb ks insts)) as [[i t]|] eqn:Dg; [discriminate|].
+    destruct insts as [|template rest]; [contradiction|].
+    destruct (Sh template (or_introl eq_refl)) as [W [O Fp]].
+    assert (M : map fst (vm_build eqb ks (template :: rest)) = ks).
+    { rewrite (vm_build_distinct _ _ _ (keys_of_length _ _ _ K) D). apply map_fst_combine.
+      unfold numbered. etransitivity; [|symmetry; apply combine_length]. rewrite seq_length.
+      rewrite (keys_of_length _ _ _ K). lia. }
+    rewrite step_is_stepv, M.
+    set (val := leaf_value eqb ofZ interp (vm_build eqb ks (template :: rest)) (sort_keys leb ks) v).
+    destruct (fold_succeeds val template W O (fpaths template) [] template (fun p H => H) (inv_nil _ _)) as [r0 Fo].
+    { intros p Ip. unfold val, leaf_value, yvals.
+      destruct (all_some_total (y_at eqb ofZ (vm_build eqb ks (template :: rest)) p) (sort_keys leb ks)) as [ys Y].
+      - intros x Ix. assert (Ik : In x ks) by (apply (Permutation_in _ (sort_keys_perm leb ks)); exact Ix).
+        destruct (In_nth_error _ _ Ik) as [i Nx]. destruct (keys_of_nth _ _ _ _ _ K Nx) as [inst [Ni A]].
+        rewrite (y_at_series _ _ _ _ _ p K D (nth_error_In _ _ Ni) A).
+        destruct (Sh inst (nth_error_In _ _ Ni)) as [Wi [_ Fi]].
+        destruct (fpaths_get p inst Wi ltac:(rewrite Fi, <- Fp; exact Ip)) as [v0 G].
+        unfold value_at. rewrite G. exists v0. reflexivity.
+      - rewrite Y. apply Tot. rewrite (all_some_length _ _ Y), map_length.
+        apply Permutation_length. apply sort_keys_perm. }
+    rewrite Fo. destruct assign; [|discriminate].
+    pose proof (fold_inv val template W (fpaths template) [] template r0 (fun p H => H) (inv_nil _ _) Fo) as [I1 I2].
+    simpl in I1.
+    destruct (template_abscissa _ _ _ _ K) as [a [Ga Na]].
+    assert (Nq : qkeys q <> []).
+    { intro E. rewrite E in Ga. simpl in Ga. inversion Ga. subst a. destruct template; simpl in O; try contradiction; try (apply Na; reflexivity). }
+    assert (Gq : exists c, get (qkeys q) r0 = Some c).
+    { destruct (in_dec path_eq_dec (qkeys q) (fpaths template)) as [Iq|Iq].
+      - destruct (I1 _ Iq) as [y [_ G]]. eexists; exact G.
+      - rewrite I2; [eexists; exact Ga|]. intros p Ip. rewrite comparable_sym.
+        apply (float_path_vs_variable q template a); auto. intro; subst; contradiction. }
+    destruct Gq as [c Gq]. destruct (set_succeeds _ qv c r0 Nq Gq) as [r' S']. rewrite S'. discriminate.
   Qed.
 End Main.
